@@ -506,6 +506,12 @@ fn run_succ(c: &SuccCase) -> Verdict {
         if d <= 400 {
             consumed = true;
             for kind in 0..6u8 {
+                // collect() allocates from size_hint(); an iterator of n >= 6 variables can only be
+                // this close to its end through the hook (2^64 public steps), and a size_hint that
+                // is valid in every publicly reachable state may be wrong there: not judged
+                if kind == 3 && n >= 6 {
+                    continue;
+                }
                 let (cnt, last) = lib!(format!("consuming the iterator through {}", CONSUME[kind as usize]), x.iter_consume(kind));
                 ensure!(cnt == rem, "iter-from:consume-count", "{}: iterator started at {} consumed through {} yields {} items, expected {}", fl, c.t.short(), CONSUME[kind as usize], cnt, rem);
                 let lm = last.map(|l| to_model(l.as_ref()));
